@@ -16,6 +16,10 @@ MODULES = ['PyndlProofs.DriverBridge', 'PyndlProofs.ScalarBridge']
 
 def check_bridges(rep):
     with common.lean_lock():
+        # another invocation (possibly against another source tree) may have rewritten the generated constants
+        # since this run's own build
+        import extract_constants
+        extract_constants.regenerate()
         ok, log, secs = common.lake_build(MODULES)
     rep.extra['bridge_build_s'] = round(secs, 1)
     if not ok:
